@@ -206,6 +206,24 @@ def _transformed_protocol(ex, st, post, result):
                           eq(tb[0][1].args[1], ex.opaque_field_at(st, tb[0][1], q, 'bbox')),     # source bbox = image of the request bbox
                           eq(tr[0][1].args[2], ex.opaque_field_at(st, tr[0][1], q, 'size')),
                           eq(tr[0][1].args[3], ex.opaque_field_at(st, tr[0][1], q, 'bbox')))
+    if ok and ok2:
+        # the size asked upstream keeps the pixels square: the finer axis keeps its pixel count, the other follows the aspect ratio
+        from pyvc.values import to_real
+        b = [to_real(x) for x in src_bbox.items]
+        qs = ex.opaque_field_at(st, m, q, 'size')
+        w, h = to_real(qs.items[0]), to_real(qs.items[1])
+        sw, sh = b[2] - b[0], b[3] - b[1]
+        sz = m.args[1]
+        if isinstance(sz, VSeq) and sz.concrete and len(sz.items) == 2:
+            s0, s1 = to_real(sz.items[0]), to_real(sz.items[1])
+            pos = z3.And(sw > 0, sh > 0, w > 0, h > 0)
+            x_finer = sw / w < sh / h
+            goal = z3.And(goal, z3.Implies(pos, z3.If(
+                x_finer,
+                z3.And(s0 == w, s1 <= w * sh / sw + 0.5, w * sh / sw + 0.5 < s1 + 1),
+                z3.And(s1 == h, s0 <= h * sw / sh + 0.5, h * sw / sh + 0.5 < s0 + 1))))
+        else:
+            goal = z3.BoolVal(False)
     yield ('upstream_query_is_what_gets_reprojected', goal,
            'src_bbox = request bbox transformed to best_srs; the query sent upstream (directly or clipped to the coverage) is '
            'MapQuery(src_bbox, .., src_srs); the answer is reprojected from (src_srs, src_bbox) to (request srs, bbox, size)')
@@ -219,3 +237,83 @@ contract('mapproxy.source.wms:WMSSource._get_transformed', props=['C01', 'C17'],
          opaque=['_get_sub_query', 'ImageTransformer', 'MapQuery'],
          raises={'HTTPClientError': True, 'BlankImage': True, 'ZeroDivisionError': True},
          trace=[_transformed_protocol])
+
+
+# ---- "no transformation needed": the source image itself is handed out only if it already IS the requested picture -------------
+contract('mapproxy.srs:bbox_equals', props=['C01'],
+         types=dict(src_bbox='tuple[real,real,real,real]', dst_bbox='tuple[real,real,real,real]', x_delta='opt[real]', y_delta='opt[real]'),
+         returns='bool',
+         requires=['x_delta is not None and y_delta is not None and x_delta > 0 and y_delta > 0'],
+         ensures=[
+             # identical rectangles are always equal
+             'implies(src_bbox == dst_bbox, result)',
+             # "equal" means: every edge closer than the LARGER of the two tolerances (the code pairs x_delta with minx/miny and
+             # y_delta with maxx/maxy - not with the x and the y edges; only the max of both is guaranteed for an edge)
+             """implies(result, forall(lambda i: implies(0 <= i < 4, abs(src_bbox[i] - dst_bbox[i]) < max(x_delta, y_delta))))"""],
+         must_fail='result == True')
+
+contract('mapproxy.image.transform:ImageTransformer._no_transformation_needed', props=['C01'],
+         types=dict(src_size='tuple[int,int]', src_bbox='tuple[real,real,real,real]', dst_size='tuple[int,int]',
+                    dst_bbox='tuple[real,real,real,real]'), returns='bool',
+         requires=['dst_size[0] > 0 and dst_size[1] > 0', 'dst_bbox[0] < dst_bbox[2] and dst_bbox[1] < dst_bbox[3]'],
+         ensures=[
+             # C01: a request that is exactly the stored image (same size, same SRS object, same rectangle) is answered unresampled
+             'implies(src_size == dst_size and self.src_srs == self.dst_srs and src_bbox == dst_bbox, result)',
+             # and the source is handed out ONLY if sizes and SRS agree and every edge is off by less than a tenth of the coarser
+             # axis' pixel: at most 0.1 * max(xres, yres) / min(xres, yres) output pixels - 0.1 px for square pixels, below the
+             # 1.5 px of C01 up to an anisotropy of 15 (lemma below)
+             """implies(result, src_size == dst_size and self.src_srs == self.dst_srs and
+                        forall(lambda i: implies(0 <= i < 4, abs(src_bbox[i] - dst_bbox[i]) * 10 <
+                               max((dst_bbox[2] - dst_bbox[0]) / dst_size[0], (dst_bbox[3] - dst_bbox[1]) / dst_size[1]))))"""],
+         must_fail='result == True')
+lemma('tenth_of_coarser_pixel_is_within_budget', ['C01'],
+      doc='an edge offset d < max(xres, yres)/10 is below 1.5 output pixels on either axis as long as the pixel anisotropy is at most 15',
+      fn=lambda z3: (lambda d, xr, yr: ([xr > 0, yr > 0, d >= 0, d * 10 < z3.If(xr > yr, xr, yr), xr <= 15 * yr, yr <= 15 * xr],
+                                        z3.And(d < 1.5 * xr, d < 1.5 * yr)))(*z3.Reals('d xr yr')))
+
+
+def _fi_new_query(ex, st, post, result):
+    """the forwarded query: bbox = the request bbox transformed to best_srs, width kept and height chosen for square pixels,
+    the pixel = the rounded affine image of the reprojected point in that bbox/size (y down)"""
+    import z3
+    from pyvc.values import eq, VSeq, to_real, to_int
+    q = post.env['query']
+    best = T.evs(st, 'best_srs')
+    tb = T.evs(st, 'transform_bbox_to')
+    tr = T.evs(st, 'transform_to')
+    iq = T.evs(st, 'InfoQuery')
+    ok = len(best) == 1 and len(tb) == 1 and len(tr) == 1 and len(iq) == 1 and all(k in iq[0][1].kwargs for k in ('bbox', 'size', 'srs', 'pos'))
+    goal = z3.BoolVal(bool(ok))
+    if ok:
+        kw = iq[0][1].kwargs
+        src_srs = ex.opaque_field_at(st, tb[0][1], q, 'srs')
+        ib = tb[0][1].result
+        ok2 = kw['bbox'] is ib and kw['srs'] is best[0][1].result and tb[0][1].args[0] is best[0][1].result \
+            and tr[0][1].args[0] is best[0][1].result and isinstance(kw['size'], VSeq) and isinstance(kw['pos'], VSeq)
+        goal = z3.And(goal, z3.BoolVal(bool(ok2)), eq(tb[0][1].args[1], ex.opaque_field_at(st, tb[0][1], q, 'bbox')),
+                      z3.BoolVal(tb[0][1].recv is not None and tr[0][1].recv is not None and tb[0][1].recv.t.eq(tr[0][1].recv.t)),
+                      eq(best[0][1].args[0], src_srs))
+        if ok2:
+            b = [to_real(x) for x in ib.items]
+            w = to_real(kw['size'].items[0])
+            hgt = to_real(kw['size'].items[1])
+            qsize = ex.opaque_field_at(st, iq[0][1], q, 'size')
+            pt = tr[0][1].result
+            px, py = to_real(kw['pos'].items[0]), to_real(kw['pos'].items[1])
+            ex_x = (to_real(pt.items[0]) - b[0]) * w / (b[2] - b[0])
+            ex_y = (b[3] - to_real(pt.items[1])) * hgt / (b[3] - b[1])
+
+            def near(a, c):
+                return z3.And(a - c <= z3.RealVal('0.5000001'), c - a <= z3.RealVal('0.5000001'))
+            goal = z3.And(goal, w == to_real(qsize.items[0]),
+                          # height: the integer part of width * (bbox height / bbox width)  (square pixels)
+                          z3.Implies(z3.And(b[2] > b[0], b[3] > b[1], w > 0),
+                                     z3.And(hgt <= (b[3] - b[1]) / (b[2] - b[0]) * w, (b[3] - b[1]) / (b[2] - b[0]) * w < hgt + 1)),
+                          z3.Implies(z3.And(b[2] > b[0], b[3] > b[1], hgt > 0), z3.And(near(px, ex_x), near(py, ex_y))))
+    yield ('forwarded_query_addresses_the_same_ground_point', goal,
+           'InfoQuery(bbox=transformed bbox, size=(width, int(width * aspect)), srs=best_srs, pos=round(affine image of the '
+           'reprojected click in that bbox/size)): the upstream is asked about the clicked ground point to within half a pixel')
+
+
+_ct = __import__('pyvc.api', fromlist=['REG']).REG.contracts['mapproxy.client.wms:WMSInfoClient._get_transformed_query']
+_ct['trace'] = list(_ct['trace']) + [_fi_new_query]
